@@ -18,6 +18,7 @@ import (
 type mapSvc struct {
 	vals map[string][]byte
 	reqs []string
+	vers map[string]api.SecretVersion // versions above 1 (a secret that was changed)
 }
 
 func (m *mapSvc) Get(_ context.Context, name string) (*api.SecretValue, error) {
@@ -26,10 +27,13 @@ func (m *mapSvc) Get(_ context.Context, name string) (*api.SecretValue, error) {
 	if !ok {
 		return nil, api.ErrNotFound
 	}
-	return &api.SecretValue{Version: 1, Value: bytes.Clone(v)}, nil
+	return &api.SecretValue{Version: 1 + m.vers[name], Value: bytes.Clone(v)}, nil
 }
 
 func (m *mapSvc) GetIfChanged(ctx context.Context, name string, old api.SecretVersion) (*api.SecretValue, error) {
+	if v, ok := m.vals[name]; ok && 1+m.vers[name] != old {
+		return &api.SecretValue{Version: 1 + m.vers[name], Value: bytes.Clone(v)}, nil
+	}
 	return nil, api.ErrValueNotChanged
 }
 
@@ -213,6 +217,7 @@ func traceFields(o opts) error {
 				jsonOK = append(jsonOK, d.fname+":1:"+hx(string(js)))
 			}
 		}
+		second := "-"
 		perr, aerr, namesOut, store := "-", "-", "-", (*setec.Store)(nil)
 		var listedOut []string
 		func() {
@@ -284,6 +289,14 @@ func traceFields(o opts) error {
 				}
 				d := descs[i]
 				var s string
+				tparts := strings.Split(d.tag, ",")
+				jsonTagged := d.hasTag && len(tparts) >= 2 && tparts[len(tparts)-1] == "json"
+				if jsonTagged && d.kind != "secret" && fv.Kind() != reflect.Chan {
+					// a ",json" field: whatever its type, it holds the decoded value
+					js, _ := json.Marshal(fv.Interface())
+					vals = append(vals, d.fname+"=json:"+hx(string(js)))
+					continue
+				}
 				switch d.kind {
 				case "bytes":
 					s = "bytes:" + hb(fv.Bytes())
@@ -358,13 +371,55 @@ func traceFields(o opts) error {
 			storeAfter = strings.Join(parts, ";")
 			store.Close()
 		}
+		// a pointer field whose UnmarshalBinary rejected the value: once the secret is repaired and
+		// refreshed, applying the same Fields again must fill it (a scenario of its own: fresh
+		// struct value, fresh store, a copy of the service)
+		if via == "apply" && perr == "-" && ptr == "1" {
+			for i, d := range descs {
+				if d.kind != "binptr" || !d.hasTag || strings.Contains(d.tag, ",") || d.tag == "" || i >= len(sfs) {
+					continue
+				}
+				full := join(d.tag)
+				if v, ok := svc.vals[full]; !ok || !bytes.HasPrefix(v, []byte("bad")) {
+					continue
+				}
+				svc2 := &mapSvc{vals: map[string][]byte{}}
+				for k, v := range svc.vals {
+					svc2.vals[k] = v
+				}
+				val2 := reflect.New(st)
+				cx := context.Background()
+				fs2, err := setec.ParseFields(val2.Interface(), prefix)
+				if err != nil {
+					break
+				}
+				s2, err := setec.NewStore(cx, setec.StoreConfig{Client: svc2, AllowLookup: true, PollInterval: -1, Logf: func(string, ...any) {}})
+				if err != nil {
+					break
+				}
+				fs2.Apply(cx, s2) // fails for this field
+				svc2.vals[full] = []byte("val-fixed")
+				svc2.vers = map[string]api.SecretVersion{full: 1}
+				s2.Refresh(cx)
+				second = d.fname + ":ok"
+				if err := fs2.Apply(cx, s2); err != nil && strings.Contains(err.Error(), fmt.Sprintf("%q", d.fname)) {
+					second = d.fname + ":err"
+				} else if p := val2.Elem().Field(i).Interface().(*BinT); p == nil {
+					second = d.fname + ":nil"
+				} else if string(p.Got) != "val-fixed" {
+					second = d.fname + ":wrong"
+				}
+				s2.Close()
+				break
+			}
+		}
 		var svcNames []string
 		for n, v := range svc.vals {
 			svcNames = append(svcNames, hx(n)+"="+hb(v))
 		}
 		sort.Strings(svcNames)
-		emit("fields\tlisted=%s\tvia=%s\tprefix=%s\tshape=%s\tptr=%s\tsvc=%s\tperr=%s\tnames=%s\treqs=%s\taerr=%s\tvals=%s\tuntouched=%s\tstore_after=%s\tjsonok=%s",
-			xlistT(listedOut), via, hx(prefix), strings.Join(shape, ";"), ptr, strings.Join(svcNames, ";"), perr, namesOut, xlistT(svc.reqs), aerr, strings.Join(vals, ";"), untouched, storeAfter, strings.Join(jsonOK, ";"))
+		emit("fields\tlisted=%s\tvia=%s\tprefix=%s\tshape=%s\tptr=%s\tsvc=%s\tperr=%s\tnames=%s\treqs=%s\taerr=%s\tvals=%s\tuntouched=%s\tstore_after=%s\tjsonok=%s\tsecond=%s",
+			xlistT(listedOut), via, hx(prefix), strings.Join(shape, ";"), ptr, strings.Join(svcNames, ";"), perr, namesOut, xlistT(svc.reqs), aerr, strings.Join(vals, ";"), untouched, storeAfter, strings.Join(jsonOK, ";"), second)
 	}
 	return nil
 }
